@@ -164,6 +164,8 @@ def lib_attr(it, obj, name: str, node=None) -> z3.ExprRef:
             return st.get(obj, name)
         if name in DATA_ATTRS.get(cname, ()):
             return st.get(obj, name)
+        if name in COMPUTED_ATTRS.get(cname, {}):
+            return COMPUTED_ATTRS[cname][name](it, obj)
         # find the most specific class that has a spec for this method
         for anc in _mro_names(it.ct, c):
             if f"{anc}.{name}" in LIB:
@@ -195,6 +197,24 @@ def lib_attr(it, obj, name: str, node=None) -> z3.ExprRef:
 
 
 DATA_ATTRS = {"object": {"hex"}, "Logger": {"name"}}
+
+
+def _td_component(which: str):
+    """timedelta.days / .seconds / .microseconds: the normalised components, related to total_seconds()
+    the way datetime defines them (0 <= seconds < 86400, 0 <= microseconds < 10**6)."""
+    def get(it, obj):
+        a = V.addr(obj)
+        d, s_, us = td_days(a), td_secs(a), td_us(a)
+        it.st.assume(z3.And(0 <= s_, s_ < 86400, 0 <= us, us < 1000000,
+                            td_seconds(a) == z3.ToReal(d) * 86400 + z3.ToReal(s_) + z3.ToReal(us) / 1000000))
+        return V.VInt({"days": d, "seconds": s_, "microseconds": us}[which])
+    return get
+
+
+td_days = z3.Function("td_days", I, I)
+td_secs = z3.Function("td_secs", I, I)
+td_us = z3.Function("td_us", I, I)
+COMPUTED_ATTRS = {"timedelta": {k: _td_component(k) for k in ("days", "seconds", "microseconds")}}
 
 
 def _mro_names(ct: V.ClassTable, c: int) -> list[str]:
@@ -595,6 +615,8 @@ def unpack(it, target, v, env) -> None:
 
 def contains(it, container, item) -> z3.ExprRef:
     st = it.st
+    if it.kind(container) == "str" and it.kind(item) == "str":
+        return str_contains(V.sid(container), V.sid(item))          # substring test (uninterpreted; see str.replace)
     cn = _cname(it, container)
     if cn in ("dict", "OrderedDict", "mappingproxy"):
         return z3.Select(st.get(container, "$dhas"), item)
@@ -971,6 +993,8 @@ def _dict_get(it, lv, ca, node):
     c = st.contract
     if c is not None and hasattr(c, "on_dict_get"):
         c.on_dict_get(it, d, k)
+    if st.no_fork:        # inside a summarised expression: the value as a conditional term
+        return z3.If(z3.Select(p["has"], k), z3.Select(p["val"], k), default)
     if st.decide(z3.Select(p["has"], k), f"dict.get@{it.pos(node)}:hit"):
         return st.simp(z3.Select(p["val"], k))
     return default
@@ -1684,11 +1708,19 @@ def _logger_log(it, lv, ca, node):
 
 
 str_replace = z3.Function("str_replace", I, I, I, I)
+str_contains = z3.Function("str_contains", I, I, z3.BoolSort())
+
+
+def replace_term(it, hay, old, new) -> z3.ExprRef:
+    """hay.replace(old, new) as a string id; replacing a substring that does not occur is the identity (T-FMT)."""
+    r = str_replace(hay, old, new)
+    it.st.assume(z3.Implies(z3.Not(str_contains(hay, old)), r == hay))
+    return r
 
 
 @spec("str.replace")
 def _str_replace(it, lv, ca, node):
-    return V.VStr(str_replace(V.sid(lv.bound), V.sid(ca.pos[0]), V.sid(ca.pos[1])))
+    return V.VStr(replace_term(it, V.sid(lv.bound), V.sid(ca.pos[0]), V.sid(ca.pos[1])))
 
 
 @spec("copy.copy")
